@@ -136,7 +136,7 @@ def _rand_atom(rng):
     if k == 13:
         a = str(rng.randrange(0, 10 ** rng.randrange(1, 5)))
         b = "".join(rng.choice("0123456789") for _ in range(rng.randrange(0, 4)))
-        x = rng.randrange(-30, 31)
+        x = rng.randrange(-18, 19)      # effective exponent within +-22: the class the parser rounds correctly (C05)
         return {"t": "fle", "neg": rng.random() < 0.4, "d": [int(c) for c in a + b], "e": -len(b), "xneg": x < 0,
                 "x": [int(c) for c in str(abs(x))]}
     if k == 0:
@@ -391,6 +391,8 @@ def run(ctx):
         "number; multi-character punctuation symbols are contiguous; kebab-case names use #\"...\" / #:\"...\"",
         "punctuation symbols are those R7RS identifiers made of characters Rust lexes as punctuation, excluding runs containing // or /* "
         "(Rust comments) and names the reference reader leaves unspecified (a lone @)",
+        "floats in exponent form are generated with at most 8 significant digits and an effective exponent within +-22, the class "
+        "for which the parser documents correct rounding (C05); beyond it the parser may differ from rustc's literal by an ulp",
         "unquoted expressions are n = 42i32, s = \"str\", (n + 1) and v = Value::symbol(\"sym\"); the expected text is the printed value",
     ]
 
